@@ -16,6 +16,15 @@ EXTENDS Naturals, Sequences, FiniteSets, SequencesExt, FiniteSetsExt
 ROOT == 1
 DEAD == 2
 
+\* x1 = F(x, lo), x2 = F(x1, lo + 1), ... F(.., hi): a sequential loop evaluated by divide and
+\* conquer, so that TLC's recursion depth is logarithmic in the number of iterations (deep
+\* recursion makes TLC quadratic: the garbage collector rescans the ever deeper stack)
+RECURSIVE IterRange(_, _, _, _)
+IterRange(F(_, _), x, lo, hi) ==
+  IF lo > hi THEN x
+  ELSE IF lo = hi THEN F(x, lo)
+  ELSE LET mid == (lo + hi) \div 2 IN IterRange(F, IterRange(F, x, lo, mid), mid + 1, hi)
+
 NewNode == [edges |-> <<>>, fail |-> ROOT, out |-> 0, plen |-> 0, opos |-> 0]
 \* `shadow`: patterns skipped by the leftmost-first shortcut (kept for duplicate detection)
 EmptyNfa == [st |-> <<NewNode, NewNode>>, outs |-> <<>>, len |-> 0, shadow |-> {}]
@@ -97,10 +106,11 @@ FailStep(nfa, s, lm) ==
 
 KidsOf(nfa, s) == [i \in 1..Len(nfa.st[s].edges) |-> nfa.st[s].edges[i][2]]
 
-RECURSIVE Bfs(_, _, _, _)
+\* the BFS queue loop: element qi of the queue exists by the time it is processed
+BfsStep(b, qi, lm) == [nfa |-> FailStep(b.nfa, b.q[qi], lm), q |-> b.q \o KidsOf(b.nfa, b.q[qi])]
+\* every node except ROOT and DEAD enters the queue exactly once
 Bfs(nfa, q, qi, lm) ==
-  IF qi > Len(q) THEN [nfa |-> nfa, q |-> q]
-  ELSE Bfs(FailStep(nfa, q[qi], lm), q \o KidsOf(nfa, q[qi]), qi + 1, lm)
+  IterRange(LAMBDA b, k : BfsStep(b, k, lm), [nfa |-> nfa, q |-> q], qi, Len(nfa.st) - 2)
 
 \* ---- build_outputs (nfa_builder.rs:209-225): one queue element -------------
 OutputStep(nfa, s) ==
@@ -110,8 +120,7 @@ OutputStep(nfa, s) ==
      IN [nfa EXCEPT !.outs = Append(@, o), !.st[s].opos = Len(nfa.outs) + 1]
   ELSE [nfa EXCEPT !.st[s].opos = nfa.st[nfa.st[s].fail].opos]
 
-RECURSIVE Outs(_, _, _)
-Outs(nfa, q, k) == IF k > Len(q) THEN nfa ELSE Outs(OutputStep(nfa, q[k]), q, k + 1)
+Outs(nfa, q, k) == IterRange(LAMBDA n, i : OutputStep(n, q[i]), nfa, k, Len(q))
 
 Finalize(nfa, kind) ==
   LET r == Bfs(nfa, KidsOf(nfa, ROOT), 1, kind # "STD")
@@ -119,12 +128,13 @@ Finalize(nfa, kind) ==
 
 \* ---- whole construction: build_sparse_nfa ---------------------------------
 \* lens[i] = byte length of ps[i].  Result [nfa, res]: res \in {"ok","dup","empty","noinput"}
-RECURSIVE AddAll(_, _, _, _, _)
+\* the loop over the input stops at the first entry that is rejected
 AddAll(nfa, ps, lens, k, kind) ==
-  IF k > Len(ps) THEN [nfa |-> nfa, res |-> "ok"]
-  ELSE LET r == AddPattern(nfa, ps[k], k, lens[k], kind) IN
-       IF r.res \in {"dup", "empty"} THEN r
-       ELSE AddAll(r.nfa, ps, lens, k + 1, kind)
+  IterRange(LAMBDA r, i : IF r.res \in {"dup", "empty"} THEN r
+                          ELSE LET a == AddPattern(r.nfa, ps[i], i, lens[i], kind) IN
+                               \* a pattern skipped by the leftmost-first shortcut is not an error
+                               [nfa |-> a.nfa, res |-> IF a.res \in {"dup", "empty"} THEN a.res ELSE "ok"],
+            [nfa |-> nfa, res |-> "ok"], k, Len(ps))
 
 BuildNfa(ps, lens, kind) ==
   LET r == AddAll(EmptyNfa, ps, lens, 1, kind) IN
